@@ -199,6 +199,10 @@ func ObserveStr(tag string, v string) { fmt.Printf("VERIF-OBS %s %s\n", tag, v) 
 // Mode sets an engine mode flag (no native effect).
 func Mode(name string, v int) {}
 
+// Yield marks a point where the running goroutine may be overtaken by another one (a request in
+// flight). Natively it yields the processor; under the symbolic engine it is a scheduling oracle.
+func Yield() { runtime.Gosched() }
+
 type exitSignal struct{}
 
 // Exit ends the harness run (path) without error.
